@@ -22,6 +22,16 @@ CHECKS = {
             "Removal-heavy generated histories; after each removal, after GC and after re-open no lookup, listing, child list, property group or raw file entry may yield a removed entity; survivors must equal the model and later operations must succeed; protected entities must be refused without change.",
             "The harness drops its own references and runs gc.collect() before asserting absence; raw absence is asserted after close only.",
             "DESIGN.md 3/C05"),
+    "C06": ("tree", "exploration",
+            "stateful PBT with explicit collision operations, uid invariants after every step, differential refusal-without-side-effects (API snapshot + raw digests)",
+            "Generated histories mix ordinary creation with creation under caller-supplied identifiers (fresh, owned by a live entity of the same or another kind, of a removed entity), copies within and across workspaces, removals and re-opens; uniqueness and lookup invariants are evaluated after every mutation and a refused creation must leave API snapshot, listings and raw per-node digests unchanged.",
+            "Type/entity uid overlap is not constrained by the statement and not checked; CustomGroup is exempt from the one-type-per-class clause.",
+            "DESIGN.md 3/C06"),
+    "C09": ("tree", "exploration",
+            "metamorphic isolation check: per-node split digests from an independent h5py reader before/after every generated mutation; identity programs open/read/close in r and r+",
+            "Every mutating call of every generated history is a test point: digests of all stored nodes, types and the project header may differ only for the target, the child/property-group parts of affected parents, created/deleted nodes and appearing/disappearing types. Open/read-everything/close must change nothing (bytes too in mode r).",
+            "Digest granularity: attrs / datasets / children / type / property groups / concatenated blocks per node; HDF5 housekeeping in r+ mode is not compared.",
+            "DESIGN.md 3/C09"),
 }
 
 NOT_APPLICABLE = {}
